@@ -117,6 +117,7 @@ type PackageInv struct {
 }
 
 type Contracts struct {
+	Locals map[string][]string // function -> "name|type" of its locals in declaration order when the contracts were written
 	PackageInvs []*PackageInv
 	TypeInvs   map[string][]*Clause
 	Replacers  []*ReplacerSpec
@@ -196,6 +197,17 @@ func loadContracts(dir string, extra map[string]string) (*Contracts, error) {
 				}
 				rp.Quote = strings.TrimSpace(strings.TrimPrefix(strings.TrimSpace(r), "quote"))
 				cs.Replacers = append(cs.Replacers, rp)
+				cur = nil
+			case "locals":
+				// locals <func> : name|type name|type ...   (snapshot of the function's local variables, in declaration order)
+				fname, r := rest, ""
+				if k := strings.Index(rest, " : "); k >= 0 {
+					fname, r = strings.TrimSpace(rest[:k]), rest[k+3:]
+				}
+				if cs.Locals == nil {
+					cs.Locals = map[string][]string{}
+				}
+				cs.Locals[fname] = strings.Fields(r)
 				cur = nil
 			case "packageinv":
 				kind, r := splitWord(rest)
